@@ -17,6 +17,7 @@ import PybtexModel.Lemmas.BibLocal
 import PybtexModel.Lemmas.BibLocate
 import PybtexModel.Lemmas.BibBefore
 import PybtexModel.Lemmas.BibBridge
+import PybtexModel.Lemmas.BibBeforeAny
 
 namespace Pybtex.Props
 open Pybtex Pybtex.Bib
@@ -659,6 +660,53 @@ theorem C10_confined_after_head_nonvacuous :
    CIDict.ext' (by decide +kernel) (by decide +kernel), by decide +kernel, by decide +kernel,
    by decide +kernel, by decide +kernel⟩
 
+/-- **Strict mode, the complement of `C10_confined_after_head`.**  The hypothesis `hround` of the
+confinement-after theorems ("the loop goes on after the round on `bad`") fails in strict mode as soon
+as `bad` reports anything: the round raises.  What happens then is this, for every wanted-set, macro
+table and person-field list and EVERY continuation `post`: if the first round on `bad` ALONE stops
+the reader with the error `e` (state `s`) — it is not `PrematureEOF`, no `PrematureEOF` was reported
+and the error is raised in front of an unread character (the hypotheses of `C10_round_local`) — then
+reading `bad ++ post` stops in the same way: the same error `e` (same line) leaves the reader, with
+the same database and the same problems, and ALL of `post` is still unread behind what `bad` left
+unread.  Nothing of `post` is looked at, and nothing of `post` can alter what `bad` yields. -/
+theorem C10_confined_after_head_strict (bad post : Str) (strict : Bool) (wanted : Option (List Str))
+    (macros0 : List (Str × Str)) (roles : List Str) (s : St) (e : Err)
+    (hat : '@' ∈ bad)
+    (hstop : loopStep (initSt bad strict wanted macros0 roles) = .inl (s, some e))
+    (hE : ∀ e' ∈ s.errs, e'.kind ≠ .prematureEOF)
+    (he : e.kind ≠ .prematureEOF) (hrest : s.rest ≠ []) :
+    let A := parseBib (bad ++ post) strict wanted macros0 roles
+    A.2 = some e ∧ A.1.db = s.db ∧ A.1.errs = s.errs ∧ A.1.rest = s.rest ++ post ∧
+    A.1.macros = s.macros ∧ A.1.unnamed = s.unnamed := by
+  intro A
+  have hloc := C10_round_local (initSt bad strict wanted macros0 roles) post (Nat.le_refl 1) hat
+    (by rw [hstop]; intro e' he'; exact hE e' (List.mem_of_mem_drop he'))
+    (by rw [hstop]; intro e' he'; cases he'; exact ⟨he, hrest⟩)
+  have hinit : ({ initSt bad strict wanted macros0 roles with
+      rest := (initSt bad strict wanted macros0 roles).rest ++ post } : St)
+      = initSt (bad ++ post) strict wanted macros0 roles := rfl
+  rw [hinit, hstop] at hloc
+  have hA : A = parseLoop ((bad ++ post).length + 1) (initSt (bad ++ post) strict wanted macros0 roles) := rfl
+  rw [hA, parseLoop_succ, hloc]
+  simp only [Step.appRest]
+  trivial
+
+/-- strict mode on `bad = @misc{k, t = x y}`: the round raises the undefined macro `x` (line 1) in
+front of the unread ` y}` + line break; with `post = @misc{z, v = 2}` behind it the reader stops in
+exactly the same way and `post` is unread -/
+theorem C10_confined_after_head_strict_nonvacuous :
+    '@' ∈ exBad ∧
+    Step.err (loopStep (initSt exBad true none Gen.monthMacros Gen.personRoles))
+      = some ⟨.undefinedMacro "x".toList, some 1⟩ ∧
+    (loopStep (initSt exBad true none Gen.monthMacros Gen.personRoles)).isLeft = true ∧
+    (∀ e' ∈ (Step.st (loopStep (initSt exBad true none Gen.monthMacros Gen.personRoles))).errs,
+      e'.kind ≠ .prematureEOF) ∧
+    (Step.st (loopStep (initSt exBad true none Gen.monthMacros Gen.personRoles))).rest = " y}\n".toList ∧
+    (parseBib (exBad ++ exPost) true none).2 = some ⟨.undefinedMacro "x".toList, some 1⟩ ∧
+    (parseBib (exBad ++ exPost) true none).1.rest = " y}\n".toList ++ exPost ∧
+    (parseBib (exBad ++ exPost) true none).1.db.entries.map (·.key) = [] := by
+  decide +kernel
+
 /-! ### The exact position of the syntax errors
 
 The reader state carries a ghost list `errAt`, filled by `handle_error` and read by nothing: for
@@ -817,6 +865,70 @@ theorem C10_confined_before_text_nonvacuous :
   BibRT.parseBib_before_example
 
 end Before
+
+/-! ### Confinement BEFORE, textually, for every setting (`Lemmas/BibBeforeAny.lean`)
+
+`C10_confined_before_text` is stated for plain `parse_string` (no wanted-set, month macros, default
+person fields), because it rests on the C01 round trip.  The statement below needs no document
+structure at all and holds in every setting. -/
+
+/-- **Nothing that follows alters what was read before** (textual form, EVERY mode, wanted-set,
+initial macro table and person-field list).  Let `a` be ANY text whose reading on its own raises
+nothing and reports no `PrematureEOF` (its last command is not cut off by the end of the text; in
+continue mode nothing is ever raised but the nesting error of `Person()`; in strict mode "raises
+nothing" means `a` gives nothing to report).  Then for EVERY continuation `x` — complete commands,
+garbage, a malformed or unfinished entry — the entries, the preamble items and the problems read
+from `a` are initial segments of the entries, preamble items and problems read from `a ++ x`: the
+same entries with the same fields in the same order, whatever follows.
+By induction over the rounds of the command loop: a round that does not run into the end of the
+text is the same in front of any continuation (`C10_round_local`), and the loop only ever appends.
+The hypothesis on `PrematureEOF` cannot be dropped: `C10_confined_before_any_neg`. -/
+theorem C10_confined_before_any (a x : Str) (strict : Bool) (wanted : Option (List Str))
+    (macros0 : List (Str × Str)) (roles : List Str)
+    (hnone : (parseBib a strict wanted macros0 roles).2 = none)
+    (hE : ∀ e ∈ (parseBib a strict wanted macros0 roles).1.errs, e.kind ≠ .prematureEOF) :
+    (parseBib a strict wanted macros0 roles).1.db.entries
+        <+: (parseBib (a ++ x) strict wanted macros0 roles).1.db.entries ∧
+    (parseBib a strict wanted macros0 roles).1.db.preamble
+        <+: (parseBib (a ++ x) strict wanted macros0 roles).1.db.preamble ∧
+    (parseBib a strict wanted macros0 roles).1.errs
+        <+: (parseBib (a ++ x) strict wanted macros0 roles).1.errs :=
+  parseBib_before_any a x strict wanted macros0 roles hnone hE
+
+/-- a setting that is NOT the default one: wanted-set `{k, q}`, the single macro `foo`, no person
+fields.  `a` = a `@string`, the wanted entry `k` (macro values concatenated; a field without value
+is reported: not `PrematureEOF`), an unwanted entry, a `@preamble`; `x` = an entry repeating the key
+`K` and an entry cut off by the end of the text.  The hypotheses hold and the conclusion, evaluated:
+`k` with `t = FOOFOO`, the preamble `FOO` and the report of line 2 come first. -/
+theorem C10_confined_before_any_nonvacuous :
+    let a : Str := "@string{s = foo}\n@misc{k, t = s # foo, u = }\n@misc{j, t = 1}\n@preamble{foo}\n".toList
+    let x : Str := "@misc{K, v = 2}\n@misc{q, v = {unclosed".toList
+    let w : Option (List Str) := some ["k".toList, "q".toList]
+    let m0 : List (Str × Str) := [("foo".toList, "FOO".toList)]
+    (parseBib a false w m0 []).2 = none ∧
+    (parseBib a false w m0 []).1.errs = [⟨.tokenRequired "field value", some 2⟩] ∧
+    (parseBib a false w m0 []).1.db.entries.map (fun e => (e.key, e.fields))
+      = [("k".toList, [("t".toList, "FOOFOO".toList)])] ∧
+    (parseBib a false w m0 []).1.db.preamble = ["FOO".toList] ∧
+    (parseBib (a ++ x) false w m0 []).1.db.entries.map (fun e => (e.key, e.fields))
+      = [("k".toList, [("t".toList, "FOOFOO".toList)]), ("q".toList, [])] ∧
+    (parseBib (a ++ x) false w m0 []).1.db.preamble = ["FOO".toList] ∧
+    (parseBib (a ++ x) false w m0 []).1.errs
+      = [⟨.tokenRequired "field value", some 2⟩, ⟨.repeatedEntry "K".toList, none⟩, ⟨.prematureEOF, some 6⟩] := by
+  decide +kernel
+
+/-- the hypothesis "no `PrematureEOF`" of `C10_confined_before_any` cannot be dropped: an entry cut
+off inside a string is left as a partial entry without the field, and the continuation `}}`
+completes it — the entry read from `a` alone is not the one read from `a ++ x` -/
+theorem C10_confined_before_any_neg :
+    (parseBib "@a{k, t = {x y".toList false none).2 = none ∧
+    (parseBib "@a{k, t = {x y".toList false none).1.errs = [⟨.prematureEOF, some 1⟩] ∧
+    (parseBib "@a{k, t = {x y".toList false none).1.db.entries.map (fun e => (e.key, e.fields))
+      = [("k".toList, [])] ∧
+    (parseBib ("@a{k, t = {x y".toList ++ "}}".toList) false none).1.db.entries.map (fun e => (e.key, e.fields))
+      = [("k".toList, [("t".toList, "x y".toList)])] ∧
+    (parseBib ("@a{k, t = {x y".toList ++ "}}".toList) false none).1.errs = [] := by
+  decide +kernel
 
 /-! ### Confinement after, with a SYNTACTIC premise (`Lemmas/BibBridge.lean`)
 
